@@ -16,6 +16,7 @@ pub struct ChunkSt {
     pub ser: ChunkSerializer,
     pub packets: Vec<Pk>,
     pub sent: Vec<RMsg>, // one per packet
+    pub requested: Vec<bool>, // droppable as requested by the caller, one per packet
     pub des: ChunkDeserializer,
     pub des_dead: bool,
     pub decoded: Vec<RMsg>,
@@ -23,7 +24,7 @@ pub struct ChunkSt {
 
 impl ChunkSt {
     pub fn new() -> Self {
-        ChunkSt { ser: ChunkSerializer::new(), packets: vec![], sent: vec![], des: ChunkDeserializer::new(), des_dead: false, decoded: vec![] }
+        ChunkSt { ser: ChunkSerializer::new(), packets: vec![], sent: vec![], requested: vec![], des: ChunkDeserializer::new(), des_dead: false, decoded: vec![] }
     }
 }
 
@@ -103,7 +104,15 @@ fn feed_calls(st: &mut ChunkSt, calls: &[&[u8]]) -> String {
     s
 }
 
+/// `flagged`: omit every packet the serializer itself returned marked droppable; `flagged2`: every second one
+fn real_mask(st: &ChunkSt, mask: &str) -> String {
+    if mask != "flagged" && mask != "flagged2" { return mask.to_string(); }
+    let mut k = 0usize;
+    st.packets.iter().map(|p| { if p.drop { k += 1; if mask == "flagged" || k % 2 == 1 { '0' } else { '1' } } else { '1' } }).collect()
+}
+
 fn kept_bytes(st: &ChunkSt, mask: &str) -> Vec<u8> {
+    let mask = real_mask(st, mask); let mask = mask.as_str();
     let m = mask.as_bytes();
     let mut out = vec![];
     for (i, p) in st.packets.iter().enumerate() {
@@ -114,13 +123,14 @@ fn kept_bytes(st: &ChunkSt, mask: &str) -> Vec<u8> {
 }
 
 fn kept_msgs(st: &ChunkSt, mask: &str) -> Vec<RMsg> {
+    let mask = real_mask(st, mask); let mask = mask.as_str();
     let m = mask.as_bytes();
     st.sent.iter().enumerate().filter(|(i, _)| m.get(*i) != Some(&b'0')).map(|(_, x)| x.clone()).collect()
 }
 
 pub fn op(st: &mut ChunkSt, toks: &[&str]) -> Option<String> {
     Some(match toks {
-        ["ser.new"] => { st.ser = ChunkSerializer::new(); st.packets.clear(); st.sent.clear(); "ok".into() }
+        ["ser.new"] => { st.ser = ChunkSerializer::new(); st.packets.clear(); st.sent.clear(); st.requested.clear(); "ok".into() }
         ["ser.msg", typ, msid, ts, force, drop, data] => {
             let (typ, msid, ts) = (typ.parse::<u8>().ok()?, msid.parse::<u32>().ok()?, ts.parse::<u32>().ok()?);
             let data = parse_bytes(data)?;
@@ -130,6 +140,7 @@ pub fn op(st: &mut ChunkSt, toks: &[&str]) -> Option<String> {
                     let s = format!("ok {} {}", if p.can_be_dropped { 1 } else { 0 }, show_bytes(&p.bytes));
                     st.packets.push(Pk { bytes: p.bytes, drop: p.can_be_dropped });
                     st.sent.push(RMsg { typ, msid, ts, data });
+                    st.requested.push(*drop == "1");
                     s
                 }
                 Err(e) => se_kind(&e),
@@ -142,6 +153,7 @@ pub fn op(st: &mut ChunkSt, toks: &[&str]) -> Option<String> {
                     let s = format!("ok {} {}", if p.can_be_dropped { 1 } else { 0 }, show_bytes(&p.bytes));
                     st.packets.push(Pk { bytes: p.bytes, drop: p.can_be_dropped });
                     st.sent.push(RMsg { typ: 1, msid: 0, ts, data: n.to_be_bytes().to_vec() });
+                    st.requested.push(false);
                     s
                 }
                 Err(e) => se_kind(&e),
@@ -167,8 +179,14 @@ pub fn op(st: &mut ChunkSt, toks: &[&str]) -> Option<String> {
         // C01/C08: kept packets, any partition, fresh honouring deserializer → exactly the kept messages
         ["!chunk.rt", mask, sizes] => {
             let sizes = parse_sizes(sizes)?;
+            // the mark is the caller's: set exactly where requested (a chunk-size announcement is never droppable)
             for (i, p) in st.packets.iter().enumerate() {
-                if mask.as_bytes().get(i) == Some(&b'0') && !p.drop { return Some("bad-op mask drops a non-droppable packet".into()); }
+                if p.drop != st.requested[i] { return Some(format!("! FAIL packet-{}-returned-with-droppable={}-but-requested-{}", i, p.drop, st.requested[i])); }
+            }
+            if *mask != "flagged" && *mask != "flagged2" {
+                for (i, p) in st.packets.iter().enumerate() {
+                    if mask.as_bytes().get(i) == Some(&b'0') && !p.drop { return Some("bad-op mask drops a non-droppable packet".into()); }
+                }
             }
             let data = kept_bytes(st, mask);
             let want = kept_msgs(st, mask);
